@@ -87,6 +87,10 @@ def design_scenarios():
         scn("swap-melt/no-mutex", [sw(1), P(2, "melt", "lq1", ["s1"])], mutex=False, expect="fail"),
         scn("mint-mint/no-mutex", [P(1, "mint", "mq1", outs=["o1"]), P(2, "mint", "mq1", outs=["o2"])], mq=(("mq1", "UNPAID", True),),
             lq=(), mutex=False, expect="fail"),
+        # the by-quote check of d621dd9 is redundant behind the in-progress guard of 68c3b64 (its reverse seed is obsolete) ...
+        scn("melt-poll-melt2-swap/no-release-check-behind-the-guard", [P(1, "melt", "lq1", ["s1"]), P(2, "pollmelt", "lq1"), P(3, "melt", "lq2", ["s1"]), sw(4)],
+            lq=LQ2, releasecheck=False),
+        # ... and needed without it
         scn("melt-poll-melt2-swap/no-release-check", [P(1, "melt", "lq1", ["s1"]), P(2, "pollmelt", "lq1"), P(3, "melt", "lq2", ["s1"]), sw(4)],
             lq=LQ2, releasecheck=False, pollguard=False, expect="fail"),
         # a poll that releases on "no such payment": harmless behind the in-progress guard, a double spend without it (this is
